@@ -653,3 +653,9 @@ V("RL2-benign-except-baseexception", "C20", None,
    "        except BaseException:\n            if not keep_open:\n                self._reader.close()\n            raise\n        if not keep_open:\n            self._reader.close()\n"))
 V("BL4-receiver-keeps-chunk", "C15", "BL4",
   ("channel_data.py", "        if self._raw_timestamps:\n            # Need to be careful", "        if self._raw_timestamps and start_pos == 0 and len(new_data) == len(self.data):\n            self.data = new_data\n        elif self._raw_timestamps:\n            # Need to be careful"))
+V("BD1-final-chunk-size-by-modulo", "C04", "BD1",
+  ("reader.py", "                if segment.final_chunk_lengths_override is None:\n                    final_chunk_size = chunk_size\n                else:\n                    final_chunk_size = segment.final_chunk_lengths_override.get(channel_path, 0)\n",
+   "                final_chunk_size = (segment_end_index - segment_start_index) % chunk_size\n                final_chunk_size = chunk_size if final_chunk_size == 0 else final_chunk_size\n"))
+V("BD1-final-chunk-size-modulo-or", "C04", "BD1",
+  ("reader.py", "                if segment.final_chunk_lengths_override is None:\n                    final_chunk_size = chunk_size\n                else:\n                    final_chunk_size = segment.final_chunk_lengths_override.get(channel_path, 0)\n",
+   "                final_chunk_size = ((segment_end_index - segment_start_index) % chunk_size) or chunk_size\n"))
